@@ -73,7 +73,7 @@ class Res:
 class Case:
     """one harness line plus what the check knows about it"""
 
-    def __init__(self, kind, line, inlen, model=None, expect=None, selfref_depth=None, note=None, sigvalid=True):
+    def __init__(self, kind, line, inlen, model=None, expect=None, selfref_depth=None, note=None, sigvalid=True, model_cmp="direct"):
         self.kind = kind            # generator class, for the histogram
         self.line = line
         self.inlen = inlen          # bytes handed to the decoder
@@ -82,6 +82,7 @@ class Case:
         self.selfref_depth = selfref_depth
         self.note = note
         self.sigvalid = sigvalid
+        self.model_cmp = model_cmp  # how the model line's verdict translates: direct | bp_param | bp_validate | bp_all | bp_get
 
     @property
     def op(self):
@@ -93,7 +94,22 @@ def run_impl(exe, lines, timeout=1500):
     ok, outs, err = vlib.par_run_lines(exe, ["run"], lines, timeout=timeout)
     if not ok:
         raise vlib.BrokenTie("c04 harness supervisor failed (the supervisor itself must never die)", err)
-    return [Res(o) for o in outs]
+    res = [Res(o) for o in outs]
+    # a time-out (10 s) or a case slower than 9 s may be the machine, not the decoder (the largest cases validate 2^26 bytes
+    # element by element on the debug build): such a case only counts after it was re-run alone with three times the deadline
+    slow = [i for i, r in enumerate(res) if r.status == "timeout" or r.num("us") > 9_000_000]
+    again = 0
+    for i in slow[:8]:
+        rc, o, _ = vlib.run_lines(exe, ["run"], [lines[i]], timeout=200, env={"C04_DEADLINE_MS": "30000"})
+        r2 = Res(o[0]) if o else Res("died msg=no_output")
+        r2.f["retried_alone"] = "1"
+        r2.raw += " retried_alone=1 first=%s" % res[i].status
+        if r2.status == "timeout":
+            again += 1
+        res[i] = r2
+        if again >= 3:
+            break               # it is the decoder: the remaining time-outs stand as they are
+    return res
 
 
 def model_status(line):
@@ -123,7 +139,7 @@ def judge(ctx, case, res, build, param_size):
     peak = res.num("peak")
     if peak > alloc_bound(case, param_size):
         return "%s [%s build]: peak heap use %d bytes for %d input bytes (bound %d)" % (case.op, build, peak, case.inlen, alloc_bound(case, param_size)), False
-    if res.num("us") > 9_000_000:
+    if res.num("us") > (27_000_000 if res.f.get("retried_alone") else 9_000_000):
         return "%s [%s build]: %d us for %d input bytes" % (case.op, build, res.num("us"), case.inlen), False
     if case.op == "HB":
         # the length the header announces is reported by the harness; the limits decide the verdict
@@ -169,14 +185,14 @@ def header_bytes(bo, body_sig, body, typ=1, serial=7, fields=None, body_len=None
     fl = b""
     items = list(fields if fields is not None else [(1, "o", b"/a/b"), (3, "s", b"Member"), (2, "s", b"io.verif.I")])
     if body_sig:
-        items.append((8, "g", body_sig.encode()))
+        items.append((8, "g", body_sig if isinstance(body_sig, bytes) else body_sig.encode()))
     for code, sc, val in items:
         fl = pad(fl, 8)
         fl += bytes([code, 1, ord(sc), 0])
         if sc in "so":
             fl += u32(bo, len(val)) + val + b"\x00"
         elif sc == "g":
-            fl += bytes([len(val)]) + val + b"\x00"
+            fl += bytes([len(val) % 256]) + val + b"\x00"
         elif sc == "u":
             fl += u32(bo, int.from_bytes(val, "little"))
         elif sc == "v":      # raw: val is signature byte string + value bytes, caller aligned
@@ -217,12 +233,48 @@ def direct_cases(kind, ty, t, bo, off, nfds, data, phase, expect=None, typed_nam
     return out
 
 
-def body_cases(kind, ty, sig, bo, nfds, data, phase, modes, expect=None, sigvalid=True, expect_get=None):
-    """`expect` is for param / validate / all, `expect_get` for the typed get"""
+def split_sig(sig):
+    """the complete types of a (valid) signature, or None"""
+    out = []
+    rest = sig
+    try:
+        while rest:
+            _, r2 = wg._parse(rest)
+            out.append(rest[:len(rest) - len(r2)])
+            rest = r2
+    except Exception:
+        return None
+    return out
+
+
+def body_cases(kind, ty, sig, bo, nfds, data, phase, modes, expect=None, sigvalid=True, expect_get=None, cat=None):
+    """`expect` is for param / validate / all, `expect_get` for the typed get. The body parser's verdicts follow from the decoder
+    models on the same bytes at offset 0 (MarshalledMessageBody::validate and unmarshall_all demand that every byte is used)"""
     h = hx(data)
-    return [Case(kind, "BP %s %s %s %d %d %s %s" % (m, ty, bo, (phase + i) % 8, nfds, sig or "-", h), len(data),
+    out = []
+    types = split_sig(sig) if sig else []
+    for i, m in enumerate(modes):
+        c = Case(kind, "BP %s %s %s %d %d %s %s" % (m, ty, bo, (phase + i) % 8, nfds, sig or "-", h), len(data),
                  expect=expect_get if m.startswith("get") else expect, sigvalid=sigvalid)
-            for i, m in enumerate(modes)]
+        if sigvalid and types is not None and len(h) < 4000:
+            if not sig:
+                want = {"param": "ok", "validate": "ok" if not data else "err", "all": "ok" if not data else "err", "get": "err"}.get(m)
+                if want and c.expect is None:
+                    c.expect = want
+            elif m == "param":
+                c.model, c.model_cmp = "UP %s 0 %d %s %s" % (bo, nfds, sig, h), "bp_param"
+            elif m == "validate":
+                c.model, c.model_cmp = "VR %s 0 %s %s" % (bo, sig, h), "bp_validate"
+            elif m == "all":
+                c.model, c.model_cmp = "UP %s 0 %d %s %s" % (bo, nfds, sig, h), "bp_all"
+            elif m == "get" and cat is not None and ty in cat:
+                if wg.erased(wg.parse_ext(ty)) != types[0]:
+                    if c.expect is None:
+                        c.expect = "err"            # has_sig: the requested type is not the next type of the signature
+                else:
+                    c.model, c.model_cmp = "UT %s %s 0 %d 0 %s" % (ty, bo, nfds, h), "bp_get"
+        out.append(c)
+    return out
 
 
 def sig_variants(r, t, cat):
@@ -260,6 +312,7 @@ class Gen:
             ctx.tie_broken("the C04 harness knows fewer than half of the catalogue types: regenerate harness/src/bin/c04_dispatch.inc with gen/c04_dispatch.py",
                            "%d of %d" % (len(self.cat), len(full)))
         self.names = list(self.cat) + list(EXTRA)
+        self.catset = set(self.cat)
         self.n = 0
 
     def phase(self):
@@ -307,7 +360,7 @@ def gen_valid(g):
             if off == 0:
                 sig = wg.erased(t)
                 modes = ["get", "param", "validate", "all"] if kind == "valid" or r.random() < 0.5 else ["get"]
-                cases += body_cases(kind, name or ty, sig, bo, nf, data, phase(), modes, expect=expect, expect_get=expect if ty else None)
+                cases += body_cases(kind, name or ty, sig, bo, nf, data, phase(), modes, expect=expect, expect_get=expect if ty else None, cat=g.catset)
     return cases
 
 
@@ -339,7 +392,7 @@ def gen_mismatch(g):
             bo = r.choice(["le", "be"])
             data = bytes(r.choice([0, 0, 0, 1, 4, 8, r.randrange(256)]) for _ in range(r.choice([0, 4, 8, 16, 24])))
             mode = r.choice(["get", "get", "get2", "get3", "get4", "get5"])
-            cases += body_cases("mismatch", ty, sig, bo, 1, data, phase(), [mode])
+            cases += body_cases("mismatch", ty, sig, bo, 1, data, phase(), [mode], cat=g.catset)
     # a valid encoding of S read as T, for pairs of catalogue types
     pair_jobs, pair_meta = [], []
     for _ in range(5000 if thorough else 600):
@@ -350,7 +403,7 @@ def gen_mismatch(g):
         pair_meta.append((a, b, ta, bo))
     for (a, b, ta, bo), (enc, encodable) in zip(pair_meta, spec_encode(drv, pair_jobs)):
         if encodable:
-            cases += body_cases("pair", b, wg.erased(ta), bo, 3, enc, phase(), ["get", r.choice(["get2", "get3"])])
+            cases += body_cases("pair", b, wg.erased(ta), bo, 3, enc, phase(), ["get", r.choice(["get2", "get3"])], cat=g.catset)
             cases.append(Case("pair", "UT %s %s %d 0 3 %s" % (b, bo, phase(), hx(enc)), len(enc),
                               model=("UT %s %s 0 3 0 %s" % (b, bo, hx(enc))) if b in cat else None))
     return cases
@@ -469,7 +522,7 @@ def gen_random(g):
         bo = r.choice(["le", "be"])
         cases += direct_cases("random", ty if ty in cat else None, t, bo, off, 2, data, phase(), typed_name=None if ty in cat else ty)
         if off == 0:
-            cases += body_cases("random", ty, wg.erased(t) if ty in cat else EXTRA[ty][0], bo, 2, data, phase(), [r.choice(["get", "param", "validate", "all", "get2"])])
+            cases += body_cases("random", ty, wg.erased(t) if ty in cat else EXTRA[ty][0], bo, 2, data, phase(), [r.choice(["get", "param", "validate", "all", "get2"])], cat=g.catset)
     return cases
 
 
@@ -495,6 +548,24 @@ def gen_header(g):
             m = header_bytes(bo, "", b"", fields=[(1, "o", b"/p"), (3, "s", b"M"), (77, "v", val)])
             cases.append(Case("header:bomb", "HD %d %s" % (phase(), hx(m)), len(m), expect="err" if n > 61 else None,
                               note="unknown header field holding %d nested variants (already 3 levels deep)" % n))
+    # the body signature a receiver's parser works on is whatever the header decoder accepted: SIGNATURE fields that are invalid,
+    # truncated, as long as the length byte allows, nested to and beyond the limits - the whole parser surface runs on every message
+    # the library hands out, through the decoding functions (HD) and through get_next_message on a real connection (RXM)
+    sig_cases = [b"(", b")", b"a", b"()", b"{sv}", b"a{vs}", b"a{s}", b"a{sv", b"(y", b"y)", b"z", b"yz", b"\xc3\x28", b"\xff", b"y\x00y",
+                 b"y" * 255, b"y" * 254 + b"(", b"a" * 32 + b"y", b"a" * 33 + b"y", b"(" * 32 + b"y" + b")" * 32, b"(" * 33 + b"y" + b")" * 33,
+                 b"a" * 32 + b"(" * 32 + b"y" + b")" * 32, b"a" * 255, b"(" * 255, b"a{sv}a{sv}(yv)", b"v", b"av", b"a(", b"aa{", b"(((y)))"]
+    for bo in ("le", "be"):
+        for sg in sig_cases:
+            for body in (b"", b"\x07", bytes(r.choice([0, 0, 1, 7, r.randrange(256)]) for _ in range(r.choice([4, 8, 24])))):
+                m = header_bytes(bo, sg, body)
+                cases.append(Case("header:signature", "HD %d %s" % (phase(), hx(m)), len(m), note="body signature field %r" % sg[:40]))
+                cases.append(Case("header:signature", "RXM %s" % hx(m), len(m), note="body signature field %r" % sg[:40]))
+        # the signature field cut short by the end of the field array, and a length byte that runs past it
+        whole = header_bytes(bo, b"a{sv}(yy)", b"")
+        for cut in range(1, 12):
+            m = header_bytes(bo, b"a{sv}(yy)", b"", hfl=len(whole) - 16 - cut)[:len(whole) - cut]
+            m = pad(m, 8)
+            cases.append(Case("header:signature", "HD %d %s" % (phase(), hx(m)), len(m), note="signature field truncated by %d" % cut))
     # header field arrays whose bytes are all there: just below / above 2^26 in total while every field is within the array limit
     for bo in ("le", "be"):
         for nf, each in ((2, 100), (2, (1 << 25) - 96), (2, (1 << 25) + 64), (1, MAXA - 64), (1, MAXA + 8)):
@@ -564,10 +635,14 @@ def evaluate(ctx, cases, builds, drv, param_size, prop="C04"):
             m = mres.get(i)
             if m is not None:
                 ms, mused = model_status(m)
+                if c.model_cmp in ("bp_validate", "bp_all") and ms == "ok":
+                    ms = "ok" if mused == c.inlen else "err"        # every byte of the body must be used
+                if c.model_cmp != "direct":
+                    mused = None
                 if ms in ("panic", "ub", "fuel"):
                     ctx.disagreements_checked += 1
                     ctx.tie_broken("correspondence: the decoder model reaches %s on an input (the totality theorem excludes this)" % ms, c.model[:300])
-                elif ms in ("ok", "err") and (ms != res.status or (ms == "ok" and res.f.get("used") is not None and mused != res.num("used", -1))):
+                elif ms in ("ok", "err") and (ms != res.status or (ms == "ok" and mused is not None and res.f.get("used") is not None and mused != res.num("used", -1))):
                     # the predicate above passed on the implementation's output: not a C04 violation, but the tie is broken
                     ctx.disagreements_checked += 1
                     ctx.tie_broken("correspondence: decoder model and implementation disagree on acceptance or length",
@@ -626,7 +701,9 @@ def run(ctx):
     ctx.trusted = ["Coq 8.16.1 kernel", "extraction (ExtrOcamlBasic only) + ocaml/wire/driver.ml", "harness c04 binary (supervisor, worker, wrapping allocator), catalogue",
                    "Wire/SpecEnc.v as my reading of the D-Bus wire format", "stack bytes per level and seconds per step are measured, not proved"]
     ctx.assumptions = ["usize 64 bit, native little endian", "body signatures passed validate_signature (from_parts with an unvalidated signature is programmer input)",
-                       "typed decoders: nesting is bounded by the program text only for types that do not contain themselves (known finding D21 otherwise)"]
+                       "typed decoders: nesting is bounded by the program text only for types that do not contain themselves (known finding D21 otherwise)",
+                       "wire::unmarshal::iter (experimental MessageIter, a pub mod that no property anchors) is out of scope: it panics on trivial input in "
+                       "debug builds (iter.rs:353 debug_assert_eq!(bytes, 4))"]
     if not os.environ.get("VERIF_SKIP_PROOF"):
         ctx.try_proof()
     builds, param_size, info = build_all()
